@@ -26,6 +26,16 @@
       the cut of `histogram_data` keeps a prefix of every sector (`C17_cut_prefix`); the default-hours
       cut raises (`C17_windrose_default_hours_cut_counterexample`, known finding).  HourlyPlot has no
       state that enters its observables (every read is `hourlyFaces`).
+    * round 6 (input forms of the psychrometric chart: number / hourly at a timestep / daily, on either
+      argument): the hours one value stands for are the same whichever argument is the collection
+      (`C17_psych_hours_either_argument`, `C17_psych_hours_of_form`, `C17_psych_hours_later_collection`), every
+      face carries its cell's count times those hours (`C17_psych_cell_hours`) and the cells add up
+      (`C17_psych_hours_sum`).
+    * round 6 (input forms of the psychrometric chart: number / hourly at a timestep / daily, on either
+      argument): the hours one value stands for are the same whichever argument is the collection
+      (`C17_psych_hours_either_argument`, `C17_psych_hours_of_form`, `C17_psych_hours_later_collection`), every
+      face carries its cell's count times those hours (`C17_psych_cell_hours`) and the cells add up
+      (`C17_psych_hours_sum`).
     * NOT proved, compared with the real code and oracle-checked on every run: year-wrapping periods
       of the hourly plot (`is_reversed`), the IP psychrometric chart, `histogram` on edges that are not
       increasing (the docstring excludes them), `histogram_circular` with `hist_range=None`.
@@ -825,6 +835,60 @@ theorem C17_bars_read_pure (o : MObj) : (o.step .readMeshes).1 = o := rfl
 theorem C17_bars_set_min (o : MObj) (v : Rat) (idx : Int) (i : Nat) (hi : pyIndex idx o.groups.length = some i) :
     (o.step (.setMin v idx)).1.groups = o.groups.modify i fun g => { g with minV := v } := by
   simp [MObj.step, hi, setAt]
+
+/-! ### Round 6: the hours one value stands for do not depend on WHICH input is the collection -/
+
+/-- **Psychrometric chart: either argument may be the collection.**  Whatever the form `f` of the data
+    (hourly at any timestep, daily), a chart of a constant temperature with humidity data `f`, a chart of
+    temperature data `f` with a constant humidity, and a chart of two collections of form `f` all give one
+    value the same number of hours (the class of change "a side effect of the shared input check is kept
+    on one argument path only" breaks exactly this). -/
+theorem C17_psych_hours_either_argument (f : PForm) :
+    hoursPerValue .const f = hoursPerValue f .const ∧ hoursPerValue f f = hoursPerValue f .const := by
+  cases f <;> exact ⟨rfl, rfl⟩
+
+/-- The hours of one value are those of the data form: a day for daily data, `1 / timestep` of an hour for
+    (sub-)hourly data, on either argument path; two numbers count as one hour. -/
+theorem C17_psych_hours_of_form :
+    (∀ ts, hoursPerValue .const (.hourly ts) = 1 / (ts : Rat) ∧ hoursPerValue (.hourly ts) .const = 1 / (ts : Rat)) ∧
+    hoursPerValue .const .daily = 24 ∧ hoursPerValue .daily .const = 24 ∧ hoursPerValue .const .const = 1 :=
+  ⟨fun _ => ⟨rfl, rfl⟩, rfl, rfl, rfl⟩
+
+/-- Where both inputs are collections the humidity (checked last) decides: the statement is only about
+    pairs of the same form, for which this is immaterial (`C17_psych_hours_either_argument`). -/
+theorem C17_psych_hours_later_collection (t rh : PForm) (h : Rat) (hr : rh.hoursPer? = some h) :
+    hoursPerValue t rh = h := by
+  simp [hoursPerValue, hr]
+
+/-- **Cells hold hours, not samples**: `hour_values` has one entry per face (non-empty cell) and entry `k`
+    is the count of that cell times the hours one value stands for, for every pair of input forms. -/
+theorem C17_psych_cell_hours (t rh : PForm) (nT : Nat) (counts : List Nat) :
+    (cellHours t rh counts).length = (facesOfCounts nT counts).length ∧
+    ∀ k : Nat, (cellHours t rh counts)[k]? = ((hourValues counts)[k]?).map fun c => ((c : Nat) : Rat) * hoursPerValue t rh := by
+  refine ⟨?_, fun k => ?_⟩
+  · rw [C17_psych_faces_hours]; simp [cellHours]
+  · simp [cellHours]
+
+private theorem foldl_scale (h : Rat) (l : List Rat) (a : Rat) :
+    (l.map (· * h)).foldl (· + ·) (a * h) = (l.foldl (· + ·) a) * h := by
+  induction l generalizing a with
+  | nil => rfl
+  | cons x t ih =>
+    simp only [List.map_cons, List.foldl_cons]
+    rw [← Rat.add_mul]
+    exact ih (a + x)
+
+/-- The hours of all cells add up to the number of on-chart values times the hours of one value
+    (sub-hourly data of one day fills the chart with 24 hours, ten daily values with 240). -/
+theorem C17_psych_hours_sum (t rh : PForm) (counts : List Nat) :
+    sumRat (cellHours t rh counts)
+      = sumRat ((hourValues counts).map fun c => ((c : Nat) : Rat)) * hoursPerValue t rh := by
+  have := foldl_scale (hoursPerValue t rh) ((hourValues counts).map fun c => ((c : Nat) : Rat)) 0
+  simp only [Rat.zero_mul, List.map_map] at this
+  simpa [sumRat, cellHours, Function.comp_def] using this
+
+example : cellHours .const (.hourly 4) [0, 3, 0, 8] = cellHours (.hourly 4) (.hourly 4) [0, 3, 0, 8] := by decide +kernel
+example : cellHours .const .daily [2, 0] = [48] := by decide +kernel
 
 example : (⟨{ n := 4, isSpeed := true, samples := [] }, [[], [], [], []], 0, none⟩ : WObj).Inv :=
   ⟨by decide +kernel, by decide, Or.inl rfl⟩
